@@ -524,6 +524,10 @@ func check(id, tier string) int {
 		m = &mm
 		evPath = filepath.Join(root, ".work", id+"."+only+".evidence.json")
 	}
+	if os.Getenv("VERIF_ONLY_SCENARIO") != "" {
+		// development aid (one scheduler scenario only): never overwrite the real evidence
+		evPath = filepath.Join(root, ".work", id+".scenario.evidence.json")
+	}
 	_ = os.MkdirAll(filepath.Dir(evPath), 0o755)
 	_ = os.MkdirAll(filepath.Join(root, "bin"), 0o755)
 
